@@ -232,7 +232,19 @@ pub fn execute(target: Target, t: &Trace, st: &mut Stats, ctx: &Ctx) -> Verdict 
         for (ei, e) in t.events.iter().enumerate() {
             let s = match e {
                 Event::Resize { cols, rows, .. } => {
+                    let pre = vt.cursor();
+                    let (pc, _pr) = vt.size();
                     vt.resize(*cols, *rows);
+                    if target == Target::Print && pre.col == pc && *cols == pc {
+                        // the wrap-pending position is a print state: only a width change ends it
+                        st.bump("height_only_resize_while_wrap_pending");
+                        if vt.cursor().col != pc {
+                            return Verdict::Violation {
+                                rule: format!("{}/resize-drops-wrap-pending", id),
+                                detail: format!("event #{}: resize {}x? -> {}x{} (width unchanged) while a wrap was pending moved the cursor column from {} to {}", ei, pc, cols, rows, pre.col, vt.cursor().col),
+                            };
+                        }
+                    }
                     m.resize_hidden(*cols, *rows);
                     let o = observe(&vt);
                     m.adopt(&o);
@@ -265,9 +277,8 @@ pub fn execute(target: Target, t: &Trace, st: &mut Stats, ctx: &Ctx) -> Verdict 
                 }
                 let mut exp = m.obs();
                 apply_tolerances(&m, &before, &mut exp, &o);
-                if m.alt {
-                    exp.above = o.above.clone();
-                }
+                // (the alternate screen keeps no scrollback: with one feed_str per character the
+                // model's empty scrollback is exact there too)
                 target_steps += 1;
                 // strata (reach probes): function x column class x row class x modes x size class
                 let colc = if before.col == 0 { 0 } else if before.col >= before.cols { 3 } else if before.col == before.cols - 1 { 2 } else { 1 };
@@ -346,7 +357,7 @@ pub fn execute(target: Target, t: &Trace, st: &mut Stats, ctx: &Ctx) -> Verdict 
                             Some(("cursor".to_string(), format!("cursor expected ({},{}) got ({},{})", exp.col, exp.row, o.col, o.row)))
                         } else if o.view.iter().zip(pre.view.iter()).any(|(a, b)| a.cells != b.cells) || o.view.len() != pre.view.len() {
                             Some(("cells-changed".to_string(), "a cursor command changed cells".to_string()))
-                        } else if !m.alt && o.above != pre.above {
+                        } else if o.above != pre.above {
                             Some(("scrollback-changed".to_string(), "a cursor command changed the scrollback".to_string()))
                         } else if exp.view != o.view {
                             Some(("wrapmark".to_string(), "a cursor command changed a soft-wrap mark".to_string()))
